@@ -333,4 +333,23 @@ def handle : List String → String
   | "broken" :: rest => s!"BAD harness: {" ".intercalate rest}"
   | _ => "BAD command"
 
+/-- C12, wire level (`c12r frame <late 0|1> <setup> <obs>`): a *well-formed* multi response that
+reports success for every action has been fed to the real region client (harness/c07.go
+c12WireCases; with `late = 1` the calls' own contexts ended between request and response).  Every
+live call must hold that success: a call that is told "retry" although its success was received
+would be executed a second time by SendBatch. -/
+def handleC12 : List String → String
+  | ["frame", late, setup, obs] =>
+    match parseRpc "multi" setup with
+    | none => "BAD setup"
+    | some rpc =>
+      let live := liveOf rpc
+      let pcs := splitObs obs
+      if pcs.length ≠ live.length then "BAD obs"
+      else if (pcs.zip live).any (fun p => p.2 && !(p.1.length = 1 && (p.1.headD "").startsWith "ok")) then
+        s!"SPEC key=success-received-but-reported-failed late={late} obs={obs}"
+      else s!"OK tags=c12r,late{late},{if live.any (!·) then "dropped" else "alllive"}"
+  | "broken" :: rest => s!"DIFF harness: {" ".intercalate rest}"
+  | _ => "BAD command"
+
 end GV.Drive.C11
